@@ -25,6 +25,8 @@ def run(ck, an, tier):
     ledger.transact_equations(ck, an, {"margin", "equations", "order"})
     ledger.valuation_formulas(ck, an, {"nlv", "weights"})
     ledger.ledger_containers(ck, an, "S7")
+    from rules.C01 import cash_at_par
+    cash_at_par(ck, an)
     # holdings_weights uses one NLV for all holdings and the same valuation as the report
     fa = an.fa("Broker.holdings_weights")
     nl = fa.calls_to("Broker.net_liquidation_value")
